@@ -27,6 +27,7 @@ def write_hosts(hosts_hex):
     if not os.path.exists(p) or open(p).read() != txt:
         with open(p, "w") as f:
             f.write(txt)
+    C.want_gen(p, txt)
 
 
 def show(h):
